@@ -35,21 +35,24 @@ DEPLOYS = {
 def _costs(seed, agents, comps, kind):
     """capacities, footprints, routes, hosting costs of one instance"""
     rng = _pyrandom.Random(seed * 1009 + len(agents) * 31 + len(comps))
-    if kind == "roomy":
+    if kind in ("roomy", "tenths"):
         cap = {a: 100 for a in agents}
     elif kind == "tight":
         cap = {a: rng.choice([1, 2, 3, 4, 6]) for a in agents}
     else:
         cap = {a: rng.choice([0, 2, 3, 5, 100]) for a in agents}
     fp = {c: rng.choice([1, 1, 2, 3]) for c in comps}
-    dr = rng.choice([1, 1, 2])          # one default route for all (routes are symmetric, as the yaml loader builds them)
+    # 'tenths': costs that are not representable in binary (0.1, 0.7 ...): budget + spent drifts by an ulp along a path
+    tenths = kind == "tenths"
+    rpool = [0.1, 0.2, 0.3, 0.7, 1.1] if tenths else [0.5, 1, 2, 3]
+    dr = rng.choice([0.1, 0.3, 0.7] if tenths else [1, 1, 2])   # one default route for all (routes are symmetric, as the yaml loader builds them)
     default_route = {a: dr for a in agents}
-    routes = {a: {b: rng.choice([0.5, 1, 2, 3]) for b in agents if b != a and rng.random() < 0.4} for a in agents}
+    routes = {a: {b: rng.choice(rpool) for b in agents if b != a and rng.random() < (0.8 if tenths else 0.4)} for a in agents}
     for a in agents:                    # routes are symmetric, as the yaml loader builds them
         for b, r in list(routes[a].items()):
             routes[b][a] = r
-    default_hosting = {a: rng.choice([0, 0, 1, 5]) for a in agents}
-    hosting = {a: {c: rng.choice([0, 1, 2, 10]) for c in comps if rng.random() < 0.3} for a in agents}
+    default_hosting = {a: rng.choice([0.1, 0.3, 0.6, 0.2] if tenths else [0, 0, 1, 5]) for a in agents}
+    hosting = {a: {c: rng.choice([0.1, 0.2, 0.6, 1.3] if tenths else [0, 1, 2, 10]) for c in comps if rng.random() < 0.3} for a in agents}
     return cap, fp, default_route, routes, default_hosting, hosting
 
 
@@ -250,12 +253,16 @@ def _shapes(tier, prop=None):
         dict(deploy="ring4_two", policy="starve:a2", scheds=6, cost_to=6),
         dict(deploy="ring4_two", policy="random", scheds=8, cost_to=6, costs="tight"),
         dict(deploy="line3", policy="random", scheds=2, cost_to=3, byref=False),
+        # route / hosting costs in tenths (float drift in budget + spent), longer lines
+        dict(deploy="line5_two", policy="fifo", cost_to=6, costs="tenths", ks=[2, 3], max_steps=6000),
+        dict(deploy="line4", policy="random", scheds=2, cost_to=6, costs="tenths", ks=[1, 3], max_steps=6000),
+        dict(deploy="ring4_two", policy="random", scheds=2, cost_to=4, costs="tenths", ks=[2], max_steps=6000),
     ]
     if tier != "thorough":
         return q
     t = list(q)
     for d in ("line4_two", "ring4_two", "line5_two", "line3_two"):
-        for kind in ("roomy", "mixed", "tight"):
+        for kind in ("roomy", "mixed", "tight", "tenths"):
             for lo in range(0, 12, 4):
                 t.append(dict(deploy=d, policy="random", scheds=25, cost_from=lo, cost_to=lo + 4, costs=kind))
     for d in ("line4", "star4", "tri"):
